@@ -138,7 +138,7 @@ def main() -> int:
             print(f"inconclusive: {inc}")
         print(
             f"{prop} tier={args.tier} seed={seed} cases={merged['evaluations']} nontrivial={len(merged['nontrivial'])} "
-            f"excluded={sum(merged['excluded'].values())} violations={len(merged['violations'])} wall={wall:.1f}s evidence={path.relative_to(VERIF)}"
+            f"excluded={sum(merged['excluded'].values())} violations={len(merged['violations'])} wall={wall:.1f}s evidence={path}"
         )
         if merged["violations"]:
             for v in merged["violations"]:
